@@ -189,6 +189,10 @@ def _run(sc, r, scratch, i):
                 kind = "original-path-content-changed"
                 if g.get("isolate") and g.get("symbolic_links") and got.startswith("unreadable"):
                     kind = "dropped-path-became-unreadable-link"
+                elif op == "link" and g.get("symbolic_links") and b["type"] == "f" and os.path.islink(p) and os.lstat(p).st_nlink > 1:
+                    # D39: the retained replica's first path is a symbolic link; `link` made a hard link to the link itself,
+                    # and a relative one points somewhere else from its new directory
+                    kind = "dropped-path-became-hard-link-of-a-symlink"
                 return [violation("C02:%s:%s" % (sp, kind),
                                   "%s no longer reads back its bytes after `%s` (%s)" % (fsd(p), op, got), witness,
                                   sig=(sp, "readback"))]
